@@ -724,6 +724,20 @@ class ExprMixin:
         kw = {}
         for k in n.keywords:
             v, st = self.eval(k.value, st, frame, out)
+            if k.arg is None:
+                # f(**d) with d a dictionary whose keys are all known strings: one keyword per key
+                exp = None
+                if len(v) == 1:
+                    r = next(iter(v))
+                    if tag(r) == "dictobj":
+                        allk = st.lists.get((r, "*keys"), EMPTY)
+                        if allk and all(is_const(x) and isinstance(x[1], str) for x in allk):
+                            exp = {x[1]: st.lists.get((r, x), EMPTY) for x in allk}
+                    elif tag(r) == "dictlit" and r[1] and all(is_const(kt) and isinstance(kt[1], str) for kt, _ in r[1]):
+                        exp = {kt[1]: vv for kt, vv in r[1]}
+                if exp is not None and all(exp.values()):
+                    kw.update(exp)
+                    continue
             kw[k.arg] = v
         return args, kw, st
 
@@ -1111,7 +1125,33 @@ class ExprMixin:
         args, kw, st = self.eval_args(n, st, frame, out)
         return self.call_on(recv, fn.attr, args, kw, n, st, frame, out)
 
+    def _pathish(self, r):
+        return is_rooted(r) or tag(r) in ("join", "sibling", "parent", "tmpname")
+
     def call_on(self, recv, meth, args, kw, n, st, frame, out):
+        if len(recv) > 1 and meth in ("exists", "is_file", "is_dir", "stat", "lstat", "unlink", "mkdir", "rename", "replace", "touch") \
+                and all(self._pathish(r) for r in recv):
+            # one primitive on "whichever of these candidates the path is" - one event carrying the whole candidate set, as the os.* form gives
+            # (an overloaded look-up hands back the README address and its fall-back candidates together)
+            if meth in ("exists", "is_file", "is_dir"):
+                st = self.emit("PROBE", "Path." + meth, [recv], n, st, frame)
+                return V(("probe", meth, recv, st.muts)), st
+            if meth in ("stat", "lstat"):
+                self.raise_star(st, out)
+                st = self.emit("PROBE", "os.stat", [recv], n, st, frame)
+                return V(("probe", "stat", recv, st.muts)), st
+            if meth == "unlink":
+                self.raise_star(st, out)
+                return V(NONE), self.emit("REMOVE", "Path.unlink", [recv], n, st, frame)
+            if meth == "mkdir":
+                self.raise_star(st, out)
+                return V(NONE), self.emit("MKDIR", "Path.mkdir", [recv], n, st, frame)
+            if meth in ("rename", "replace") and args:
+                self.raise_star(st, out)
+                return V(NONE), self.emit("RENAME", "Path." + meth, [recv, args[0]], n, st, frame)
+            if meth == "touch":
+                self.raise_star(st, out)
+                return V(NONE), self.emit("CREATE", "Path.touch", [recv], n, st, frame, extra={"mode": "w"})
         results = set()
         cur = None
         any_normal = False
